@@ -40,33 +40,40 @@ def resid(M, s, b, trans=False):
     return out
 
 
-def install_scipy_stubs(E, log):
+def install_scipy_stubs(E, log, exact_krylov=False):
     la = boot.sp.sparse.linalg
 
     class SuperLU:
-        def __init__(self, mat):
+        def __init__(self, mat, stable=True):
             self.M = dense(mat)
+            self.stable = stable
 
         def solve(self, rhs, trans="N"):
             b = items(rhs)
             s = [E.fresh_real("lu_sol") for _ in b]
-            if boot.MODE == "sym":
+            if boot.MODE == "sym" and self.stable:
                 for r in resid(self.M, s, b, trans == "T"):
                     E.assume(r == 0.0)  # SuperLU contract on a nonsingular matrix (exact arithmetic)
             log.append(("lu.solve", self.M, b, trans, s))
             return arr(s)
 
-    def splu(mat):
+    def splu(mat, permc_spec=None, diag_pivot_thresh=None, relax=None, panel_size=None, options=None):
         if bool(E.fresh_bool("splu_fails")):
             raise RuntimeError("Factor is exactly singular")
         log.append(("splu", dense(mat)))
-        return SuperLU(mat)
+        # the accuracy half of the contract (backward-stable solve) is SuperLU's with partial pivoting,
+        # its default; with relaxed pivoting (threshold < 1, symmetric mode) nothing is promised
+        relaxed = (diag_pivot_thresh is not None and diag_pivot_thresh != 1.0) or bool((options or {}).get("SymmetricMode")) or bool((options or {}).get("DiagPivotThresh", 1.0) != 1.0)
+        return SuperLU(mat, stable=not relaxed)
 
     def krylov(name):
         def solve(mat, rhs, x0=None, maxiter=None, atol=None, **kw):
             b = items(rhs)
             s = [E.fresh_real(f"{name}_sol") for _ in b]
             info = E.int(E.fresh_name(f"{name}_info"), -1, 2)
+            if exact_krylov and boot.MODE == "sym":
+                for r in resid(dense(mat), s, b):
+                    E.assume(lor(info != 0, r == 0.0))  # converged (info == 0) means: solves the system it was given
             log.append((name, dense(mat), b, None if x0 is None else items(x0), s, info, atol, maxiter))
             return arr(s), info
 
@@ -83,10 +90,11 @@ def h_lu(E, shape):
     n = shape["n"]
     log = []
     install_scipy_stubs(E, log)
-    mat, M = matrix(E, n, shape.get("fmt", "csc"))
+    sym = shape.get("symmetric", False)
+    mat, M = matrix(E, n, shape.get("fmt", "csc"), symmetric=sym)
     b = [E.real(f"b{i}") for i in range(n)]
     try:
-        solver = LS.linear_solver(mat, P.LinearSolverType.LU)
+        solver = LS.linear_solver(mat, P.LinearSolverType.LU, symmetric=True) if sym else LS.linear_solver(mat, P.LinearSolverType.LU)
     except LS.LinearSolverError:
         E.prove(not any(l[0] == "splu" for l in log), "C17.lu_factorisation_failure_is_linear_solver_error")
         return
@@ -124,7 +132,8 @@ def h_krylov(E, shape):
     if not call:
         # early return on the initial guess: only if it already solves the requested system
         E.prove(g is not None and common.eq_all(s, g), "C17.early_return_is_the_initial_guess")
-        E.prove(common.inf_norm(resid(M, g, b, trans)) < 1e-8, "C17.early_return_only_if_guess_solves_requested_system")
+        if g is not None:
+            E.prove(common.inf_norm(resid(M, g, b, trans)) < 1e-8, "C17.early_return_only_if_guess_solves_requested_system")
         return
     name, Mgot, bgot, x0got, sol, info, atol, maxiter = call[0]
     E.prove(info == 0, "C17.unconverged_iteration_never_returns_a_vector")
@@ -159,3 +168,35 @@ def h_dispatch(E, shape):
         E.prove(False, "C17.minres_requires_symmetric")
     except AssertionError:
         E.prove(True, "C17.minres_requires_symmetric")
+
+
+def h_estimator(E, shape):
+    """C06: the real ConditionEstimator driving each real linear-solver wrapper (library calls by
+    contract stub, converged Krylov iterations exact): every call the estimator makes is one the
+    wrapper accepts, its own assertion holds, and the only thing that leaves is a number or a
+    LinearSolverError"""
+    LS = boot.mod("linear_solver")
+    P = boot.mod("params")
+    CE = boot.mod("step.cond_estimate")
+    n = shape["n"]
+    kind = shape["kind"]
+    log = []
+    install_scipy_stubs(E, log, exact_krylov=True)
+    sym = kind == "MINRES" or shape.get("symmetric", False)
+    mat, M = matrix(E, n, shape.get("fmt", "csc"), symmetric=sym)
+    params = P.Params(linear_solver_type=P.LinearSolverType[kind])
+    try:
+        solver = LS.linear_solver(mat, P.LinearSolverType[kind], symmetric=sym)
+    except LS.LinearSolverError:
+        raise Abort()
+    est = CE.ConditionEstimator(mat, solver, params)
+    want = est._required_its()
+    E.prove(want > 0, "C06.estimator_iteration_count_positive")
+    est._required_its = lambda: shape.get("its", 1)  # unwinding bound on the power iteration
+    try:
+        r = est.estimate_rcond()
+    except LS.LinearSolverError:
+        E.prove(True, "C06.estimator_failure_is_a_linear_solver_error")
+        return
+    E.prove(land(r >= 0.0, boot.np.isfinite(r)) if core.is_sym(r) else (r >= 0.0 and r == r and r != INF), "C06.reported_rcond_is_a_nonnegative_number")
+    E.prove(common.eq_all([v for row in dense(mat) for v in row], [v for row in M for v in row]), "C17.matrix_not_modified")
